@@ -192,6 +192,13 @@ add(property='C12', id='C12-rayfan-view-mutates', status='fixed', commit='259db0
          'place: the reported fan depended on whether it had been drawn',
     reproducer=json.load(open(os.path.join(HERE, 'known_cases', 'C12-rayfan-view.json'))))
 
+add(property='C11', id='C11-psf-view-mutates', status='fixed', commit='69b0c67', clause='psf_is_squared_modulus_of_dft',
+    what='fixed: property=C11 69b0c67 FFTPSF.view() replaced the non-positive values of the stored PSF in place when the '
+         'plotted region already had num_points (128) rows (no interpolation: the slice of self.psf itself reached the plot '
+         'routine), e.g. grid 128, defocused PSF filling the grid: 255 zeros became 3.9e-6 and the total energy changed '
+         'by 7.6e-6 (found by the thorough tier, draw-before-read history)',
+    reproducer=json.load(open(os.path.join(HERE, 'known_cases', 'C11-psf-view-mutates.json'))))
+
 add(property='C14', id='C14-solve-nan-poisons', status='fixed', commit='c3b6f18', clause='second_undo_restores_the_start',
     what='fixed: property=C14 c3b6f18 with a marginal-ray-height solve on the image surface, one objective evaluation at a '
          'degenerate prescription (least_squares tried radius 0) made the solve add NaN to the vertex positions; every '
@@ -345,6 +352,22 @@ add(property='C06', id='C06-other-sheet-root', status='fixed', commit='212f09f',
          '|z|) and the ray lost although it meets the mirror',
     reproducer={'R': 5.0, 'a': 0.5, 'b': 3.0, 'family': 'hyperboloid', 'fill': 0.75, 'n': 2.0, 'psf': False, 'sign': 1,
                 'wl': 0.5})
+
+add(property='C09', id='C09-image-surface-refracts', status='open', clause='opd_is_path_difference_to_reference_sphere',
+    what='when the image surface itself refracts (its own medium differs from the medium in front of it, e.g. the image '
+         'surface is the rear face of the last glass and keeps the default medium air, as in the Microscope20x and '
+         'UVReflectingMicroscope samples) Wavefront mixes the two sides: the reference sphere reaches the exit pupil as '
+         'seen from the medium in front (Paraxial.XPL() ignores the image surface), while the rays are taken back to it '
+         'with the directions and the index of the medium behind. The result is the OPD of neither reading and differs '
+         'from the OPD of the same lens written with the rear face as an explicit surface 0 mm in front of the image '
+         'surface, e.g. object at 9 mm in n = 1.5, surface R = 3.05 into N-BK7, image after 216.69 mm, EPD 2: rim sample '
+         '3.710 waves, explicit form 1.995 waves. A repair has to decide on which side of a refracting image surface '
+         'image space lies (XPL() including the image surface changes pinned paraxial values; using the arriving '
+         'directions changes every OPD by rounding), so it is recorded, not repaired',
+    region='lenses whose image surface refracts, samples that match neither consistent reading',
+    weakened_relation='OPD == reference computed with the exit pupil seen from the medium in front of the image surface and '
+                      'the ray directions and index of the medium behind it',
+    reproducer=json.load(open(os.path.join(HERE, 'known_cases', 'C09-image-surface-refracts.json'))))
 
 add(property='C09', id='C09-image-index', status='fixed', commit='09399f0', clause='opd_is_path_difference_to_reference_sphere',
     what='fixed: property=C09 09399f0 the distance from the image surface back to the reference sphere was not multiplied by '
